@@ -1,3 +1,5 @@
+import re
+
 from mindsdb_sql.parser.ast.base import ASTNode
 from mindsdb_sql.parser.utils import indent
 
@@ -13,5 +15,9 @@ class Variable(ASTNode):
         return indent(level) + f'Variable(value={repr(self.value)}{alias_str}, is_system_var={repr(self.is_system_var)})'
 
     def get_string(self, *args, **kwargs):
-        return ('@@' if self.is_system_var else '@') + f'{str(self.value)}'
+        name = str(self.value)
+        if not re.fullmatch(r'[a-zA-Z_.$]+', name):
+            # name with spaces or other symbols can be read back only in quotes
+            name = f'`{name}`'
+        return ('@@' if self.is_system_var else '@') + name
 
